@@ -308,6 +308,57 @@ def sn_eval_sites(rng):
     return " ".join("(function(){ %s })();" % f for f in forms[:rng.randrange(2, 6)])
 
 
+# ---- scope-chain correspondence: programs built from a compile-time scope chain, compared with Scopes.crun + Names.rtChain
+
+def chain_src(tokens, k):
+    """tokens outermost first: V sloppy function, S strict function, B block with a captured let (gets a stash), b plain block.
+    A direct eval in the innermost scope declares a var and renders the run-time chain through __probe."""
+    strict = "S" in tokens
+    def gen(i):
+        if i == len(tokens):
+            return "return eval('var dyn%d = %d; __probe(%d)');" % (k, k, 0 if strict else 1)
+        t = tokens[i]
+        if t == "V":
+            return "var a%d = %d; return (function(){ %s })();" % (i, i, gen(i + 1))
+        if t == "S":
+            return "return (function(){ 'use strict'; %s })();" % gen(i + 1)
+        if t == "B":
+            return "{ let c%d = %d; var g%d = function(){ return c%d }; %s }" % (i, i, i, i, gen(i + 1))
+        return "{ %s }" % gen(i + 1)
+    return "var R=[]; R.push((function(){ %s })()); JSON.stringify(R)" % gen(0)
+
+
+CHAIN_FORMS = [  # (source with E, full spec incl. the outer wrapper)  — hand-written positions the generator above does not reach
+    ("var f=() => { let b=2; return E }; return f();", "V V"),
+    ("var o={ m(x){ { let c=x; var g=function(){ return c }; return E } } }; return o.m(1);", "V V B"),
+    ("function* gen(){ yield E } return [...gen()][0];", "V V"),
+    ("function f(a = E){ return a } return f();", "V V"),
+    ("function f(a = () => b, b = E){ return b } return f();", "V V"),
+    ("function f(a = E, h = function(){ return a }){ var a2 = 5; return a } return f();", "V V"),
+    ("function f(a = 1, h = function(){ return a }){ var a2 = E; return a2 } return f();", "V V V"),
+    ("function f(){ try { throw 1 } catch(e){ var k=function(){ return e }; return E } } return f();", "V V B"),
+    ("function f(){ for (let i=0;i<1;i++){ var h=function(){ return i }; return E } } return f();", "V V B"),
+    ("class C { static s(){ return F } } return C.s();", "V B S"),
+    ("return (new Function(\"return G\"))();", "V"),
+]
+
+
+def chain_form_src(form, k):
+    e = "eval('var dyn%d = %d; __probe(1)')" % (k, k)
+    f0 = "eval('var dyn%d = %d; __probe(0)')" % (k, k)
+    g = "eval('var dyn%d = %d; __probe(1)')" % (k, k)
+    body = form.replace("E", e) if "E" in form else (form.replace("F", f0) if "return F" in form else form.replace("G", g))
+    return "var R=[]; R.push((function(){ %s })()); JSON.stringify(R)" % body
+
+
+def norm_probe(x):
+    ch, t = x.split("|target=")
+    items = [i for i in ch.split(",") if i and not i.startswith("O")]
+    if items and items[-1] == "B-":
+        items = items[:-1]
+    return ",".join(items) + "|target=" + t
+
+
 def sn_symbols(rng):
     v = rng.randrange(9)
     return ("var s=Symbol('d%d'), o={ [s]: 1, [Symbol.toStringTag]: 'Tagged', [Symbol.toPrimitive](h){ return h==='number' ? %d : 'prim' } }; class It { *[Symbol.iterator](){ yield 1; yield 2 } static [Symbol.hasInstance](x){ return x===1 } get [Symbol.toStringTag](){ return 'It' } }"
@@ -774,6 +825,19 @@ def main(ctx):
         cases.append({"kind": "prim", "vals": vals, "src": gen_prim_src(rng, len(vals)), "n": rng.choice([2, 4, 8] if quick else [2, 4, 8, 16])})
         meta.append({"src": "prim"})
 
+    # scope-chain programs (compared with the model's `chain` further down)
+    n_chain = 40 if quick else 500
+    chain_idx = []
+    for form, spec in CHAIN_FORMS:
+        chain_idx.append((len(cases), spec))
+        cases.append({"kind": "prog", "src": chain_form_src(form, rng.randrange(100)), "n": 2, "reps": 1})
+        meta.append({"src": "chain"})
+    for i in range(n_chain):
+        toks = [rng.choice("VVVSBBb") for _ in range(rng.randrange(0, 6))]
+        chain_idx.append((len(cases), " ".join(["V"] + toks)))
+        cases.append({"kind": "prog", "src": chain_src(toks, rng.randrange(100)), "n": 2, "reps": 1})
+        meta.append({"src": "chain"})
+
     shards = 6 if quick else 14
 
     # 1+2. two independent pipelines run side by side (the Lean side needs no Go binary, the harness needs no Lean):
@@ -785,25 +849,29 @@ def main(ctx):
         regen_ok = ctx.regen()
         ctx.obligation("tie.regen", "tie", regen_ok, "extractor ran" if regen_ok else "extractor failed")
         drv_ok, _ = ctx.lake_build(["model_c16"])
-        ok, errs = ctx.lake_build(["GojaModel.C16.Props", "GojaModel.C16.Tie"])
+        ok, errs = ctx.lake_build(["GojaModel.C16.Props", "GojaModel.C16.Tie", "GojaModel.C16.Tie2"])
         ctx.log("lean: regenerated + built in %.1fs" % (time.time() - t))
         if ok:
             # every theorem of Props is audited for axioms on every run; the Tie theorems (all `decide`/`rfl` over regenerated
             # data) were just re-checked by `lake build` — the quick tier records them from that build and leaves their axiom
             # audit (one more Lean process that has to import Lean.Elab) to the thorough tier
             with ThreadPoolExecutor(max_workers=3) as ex:
-                fs = [ex.submit(ctx.audit, "GojaModel.C16.Props", 28)]
+                fs = [ex.submit(ctx.audit, "GojaModel.C16.Props", 31)]
                 if ctx.tier == "thorough":
                     fs.append(ex.submit(ctx.audit, "GojaModel.C16.Tie", 18))
+                    fs.append(ex.submit(ctx.audit, "GojaModel.C16.Tie2", 4))
                     fs.append(ex.submit(ctx.leanchecker, "GojaModel.C16.Props"))
                 for f in fs:
                     f.result()
             if ctx.tier != "thorough":
-                tie_src = open(os.path.join(LEAN, "GojaModel", "C16", "Tie.lean")).read()
-                names = re.findall(r"^theorem\s+(\S+)", tie_src, re.M)
-                for n in names:
-                    ctx.obligation("thm:GojaModel.C16.Tie.%s" % n, "theorem", True, "re-checked by lake build (axiom audit in the thorough tier)")
-                ctx.obligation("tie:theorems-present", "tie", len(names) >= 19, "%d Tie theorems" % len(names))
+                total = 0
+                for mod in ("Tie", "Tie2"):
+                    tie_src = open(os.path.join(LEAN, "GojaModel", "C16", mod + ".lean")).read()
+                    names = re.findall(r"^theorem\s+(\S+)", tie_src, re.M)
+                    total += len(names)
+                    for n in names:
+                        ctx.obligation("thm:GojaModel.C16.%s.%s" % (mod, n), "theorem", True, "re-checked by lake build (axiom audit in the thorough tier)")
+                ctx.obligation("tie:theorems-present", "tie", total >= 23, "%d Tie theorems" % total)
         ctx.log("lean side done in %.1fs" % (time.time() - t))
         return drv_ok, ok
 
@@ -932,6 +1000,25 @@ def main(ctx):
         ctx.obligation("corr:scan-memo-equals-model(%d byte strings)" % len(scan_idx), "correspondence", not bad, "; ".join("%s impl=%s model=%s" % b for b in bad[:5]))
     else:
         ctx.obligation("corr:scan-memo-equals-model", "correspondence", False, "model driver unavailable")
+
+    # 4b'. the run-time scope chain an eval-declared var meets: implementation (stash probe) vs Scopes.crun + Names.rtChain
+    if model_ok:
+        rc, mch, _ = ctx.run_lines([model], ["chain " + spec for _, spec in chain_idx])
+        bad = []
+        shapes = {}
+        for j, (i, spec) in enumerate(chain_idx):
+            a = answers[i]
+            if str(a.get("info", "")).startswith("no answer"):
+                continue
+            got = {norm_probe(x) for x in re.findall(r"((?:[OVB][-so],?)+\|target=(?:[OVB][-so]|none))", str(a.get("base", "")))}
+            want = mch[j].split("|mode=")[0] if j < len(mch) else "?"
+            shapes[want] = shapes.get(want, 0) + 1
+            if got != {want}:
+                bad.append("%s: impl=%s model=%s" % (spec, sorted(got), want))
+        ctx.stats["scope_chain_shapes"] = len(shapes)
+        ctx.obligation("corr:scope-chain-equals-model(%d programs, %d distinct chains)" % (len(chain_idx), len(shapes)), "correspondence", not bad, "; ".join(bad[:4]))
+    else:
+        ctx.obligation("corr:scope-chain-equals-model", "correspondence", False, "model driver unavailable")
 
     # 4c. memo model vs independent vector-clock oracle
     memo_lines, memo_want = [], []
